@@ -28,6 +28,7 @@ from ..cfg import CFG
 from ..consteval import Folder, Raised, Rec, Undecidable, make_gate
 from ..index import AnalysisError, ClassInfo, FunctionInfo, Index, full, norm, own_nodes
 from ..report import Report
+from ..rules.circuitsem import make_folder as cs_make_folder
 from .. import symx
 
 ANSATZ = "tangelo/toolboxes/ansatz_generator/ansatz.py"
@@ -55,6 +56,7 @@ def run(idx: Index, rep: Report, tier: str):
             check_update_equals_rebuild(idx, rep, c)
     check_vsqs_update_equals_rebuild(idx, rep)
     check_adapt_grow_equals_restart(idx, rep)
+    check_qmf_parameter_count(idx, rep)
     check_term_order_histories(idx, rep, tier)
     check_class_update_histories(idx, rep, tier)
     check_qmf_based_histories(idx, rep)
@@ -583,6 +585,45 @@ def _method(idx, obj, name, rel):
     cv = obj.cls_val
     from ..consteval import FuncVal
     return FuncVal(cv.methods[name], bound_self=obj, home=(cv.method_home or {}).get(name, cv.home))
+
+
+def check_qmf_parameter_count(idx: Index, rep: Report):
+    """QMF advertises n_var_params and rejects every vector of another length; its circuit has one RX and one RZ per QUBIT of the chosen encoding.  The statement
+    that sets the advertised number is folded for every encoding (the register size through the library's own get_qubit_number - two fewer for the
+    symmetry-conserving encoding), and the circuit generator is folded on a vector of the advertised length: advertised = variational gates = 2 x qubits."""
+    rule = "K6.length-validation"
+    QMFF = "tangelo/toolboxes/ansatz_generator/qmf.py"
+    QMH = "tangelo/toolboxes/ansatz_generator/_qubit_mf.py"
+    MT = "tangelo/toolboxes/qubit_mappings/mapping_transform.py"
+    init = idx.function(f"{QMFF}::QMF.__init__")
+    sets = [st for st in own_nodes(init.node) if isinstance(st, ast.Assign) and norm(st.targets[0]) == "self.n_var_params"]
+    if len(sets) != 1:
+        raise AnalysisError("QMF.__init__: the assignment of self.n_var_params was not found")
+    gq = idx.function(f"{MT}::get_qubit_number")
+    gen = idx.function(f"{QMH}::get_qmf_circuit")
+    n = 0
+    for mapping in ("JW", "BK", "JKMN", "scBK"):
+        for n_so in (4, 6):
+            try:
+                nq = cs_make_folder(idx, MT).run_function(gq.node, {"mapping": mapping, "n_spinorbitals": n_so})
+                me = Rec("QMF", {"n_qubits": nq, "n_spinorbitals": n_so, "n_orbitals": n_so // 2, "mapping": mapping})
+                fo = cs_make_folder(idx, QMFF)
+                fo.env["self"] = me
+                fo.stmt(sets[0])
+                adv = me.fields["n_var_params"]
+                circ = _class_folder(idx, QMH).run_function(gen.node, {"qmf_var_params": _SizedArr([0.1 * (i + 1) for i in range(int(adv))]), "variational": True})
+            except (Undecidable, Raised) as e:
+                raise AnalysisError(f"QMF parameter count not foldable ({mapping}, {n_so} spin-orbitals): {type(e).__name__} {e}")
+            sig = circ.signature()
+            nvar = sum(1 for x in sig if x[4])
+            width = max([q for x in sig for q in (x[1] if isinstance(x[1], tuple) else (x[1],))] + [-1]) + 1
+            n += 1
+            rep.decide(adv == 2 * nq and nvar == adv and width == nq, rule, init, sets[0], text=f"QMF under {mapping}, {n_so} spin-orbitals: advertises {adv} parameters on {nq} qubits",
+                       what="the number of parameters advertised (and enforced on every vector) equals the number of variational gates of the circuit - two per qubit of the "
+                            "encoded register",
+                       reason=f"{adv} advertised, the circuit built from a vector of that length has {nvar} variational gates on {width} qubits; the encoding uses {nq} qubits: a "
+                              f"vector of the true length 2 x {nq} is rejected and one of the advertised length builds a circuit on the wrong register")
+    rep.floor("QMF encodings folded", n, 8)
 
 
 def check_vsqs_update_equals_rebuild(idx: Index, rep: Report):
